@@ -432,5 +432,12 @@ int lha_ext_header_decode(LHAFileHeader *header,
 		return 0;
 	}
 
-	return htype->decoder(header, data, data_len);
+	// A known header that cannot be decoded (out of memory) is an
+	// error, unlike an unknown one, which is ignored.
+
+	if (!htype->decoder(header, data, data_len)) {
+		return -1;
+	}
+
+	return 1;
 }
